@@ -173,8 +173,12 @@ fn enumerate_files(path: &PathBuf) -> Result<Vec<PathBuf>, Vec<Diagnostic>> {
             .into_iter()
             .filter_map(|entry| match entry {
                 // Only the files in the directory. A directory in the
-                // directory is not a source file.
-                Ok(entry) if entry.path().is_file() => Some(entry.path()),
+                // directory is not a source file. The canonical path, as
+                // for a file that is an argument, so that a file is in the
+                // set once when the directory has a link to the file.
+                Ok(entry) if entry.path().is_file() => {
+                    Some(canonicalize(entry.path()).unwrap_or_else(|_| entry.path()))
+                }
                 _ => None,
             })
             .collect();
